@@ -147,6 +147,37 @@ func findFunc(file, recv, fn string) (*ast.FuncDecl, error) {
 	return nil, fmt.Errorf("function %s.%s not found in %s", recv, fn, file)
 }
 
+// embeddedFields lists the embedded fields of struct type `name` declared in file (they would promote methods).
+func embeddedFields(file, name string) string {
+	f := files[file]
+	out := ""
+	if f == nil {
+		return "?"
+	}
+	for _, d := range f.Decls {
+		gd, ok := d.(*ast.GenDecl)
+		if !ok {
+			continue
+		}
+		for _, sp := range gd.Specs {
+			ts, ok := sp.(*ast.TypeSpec)
+			if !ok || ts.Name.Name != name {
+				continue
+			}
+			st, ok := ts.Type.(*ast.StructType)
+			if !ok {
+				return "not-a-struct"
+			}
+			for _, fl := range st.Fields.List {
+				if len(fl.Names) == 0 {
+					out += text(fl.Type) + " "
+				}
+			}
+		}
+	}
+	return strings.TrimSpace(out)
+}
+
 func matches(t string, k kernel) bool {
 	for _, m := range k.must {
 		if !strings.Contains(t, m) {
@@ -584,6 +615,46 @@ func fact(k kernel) (bool, string, error) {
 			return true
 		})
 		return mk && cp && lit, fmt.Sprintf("make=%v copy=%v literal-stores-the-copy=%v", mk, cp, lit), nil
+	case "returns":
+		// the function body is a single `return r1, r2, ..` with exactly these result texts ("re:" = regular expression); for
+		// methods of a struct type the type must have no embedded field (an embedded field would contribute promoted methods)
+		if len(fd.Body.List) != 1 {
+			return false, fmt.Sprintf("body has %d statements, expected a single return", len(fd.Body.List)), nil
+		}
+		rs, isRet := fd.Body.List[0].(*ast.ReturnStmt)
+		if !isRet || len(rs.Results) != len(k.must) {
+			return false, "body is not `return` of " + fmt.Sprint(len(k.must)) + " results: " + text(fd.Body.List[0]), nil
+		}
+		ok := true
+		for i, want := range k.must {
+			got := text(rs.Results[i])
+			if strings.HasPrefix(want, "re:") {
+				if !regexp.MustCompile("^(?:" + want[3:] + ")$").MatchString(got) {
+					ok = false
+				}
+			} else if got != want {
+				ok = false
+			}
+		}
+		emb := embeddedFields(k.file, k.recv)
+		return ok && emb == "", fmt.Sprintf("`%s` embedded fields of %s: %q", text(rs), k.recv, emb), nil
+	case "ctxsync-returns":
+		// ctxSync hands the caller's own context to a synchronous build and `detachedContext{ctx}` to a background one:
+		// its return statements are exactly `return ctx, true` and `return detachedContext{ctx}, false`
+		var rets []string
+		ast.Inspect(fd.Body, func(x ast.Node) bool {
+			if r, isR := x.(*ast.ReturnStmt); isR {
+				parts := []string{}
+				for _, e := range r.Results {
+					parts = append(parts, text(e))
+				}
+				rets = append(rets, strings.Join(parts, ", "))
+			}
+			return true
+		})
+		sort.Strings(rets)
+		got := strings.Join(rets, " | ")
+		return got == "ctx, true | detachedContext{ctx}, false" || got == "ctx, true | detachedContext{parent: ctx}, false", "return statements: " + got, nil
 	case "backendcfg-passthrough", "backendcfg-identity":
 		// the constructor hands cfg.BackendConfig to the default backend (`cfg.BackendConfig.Use`); the only fields of it that it
 		// writes are Name, Logger and Stats (passthrough), and Name / Stats are taken from the failover's own (identity)
